@@ -507,3 +507,166 @@ pub fn run_c13(ctx: &mut Ctx) {
     let _ = std::fs::remove_dir_all(&sdir);
     let _ = Write::flush(&mut std::io::stdout());
 }
+
+/// C13, the setup wizard: the real `setup_wizard` binary (built from /repo's working tree next to the endpoint) run
+/// non-interactively for listen addresses of both families, credentials with awkward characters and a host name;
+/// then the real endpoint binary is started, in the wizard's directory, from the files the wizard wrote. It must
+/// come up, listen on the address that was asked for, present the generated certificate for the host name and
+/// accept exactly the credentials that were given (compared with the registry model).
+pub fn run_c13_wizard(ctx: &mut Ctx) {
+    use base64::Engine;
+    quiet_panics();
+    let Some(binp) = bin() else {
+        ctx.notes.push("c13wizard: no endpoint binary (TT_ENDPOINT_BIN): nothing was run".to_string());
+        return;
+    };
+    let wizard = std::path::Path::new(&binp).with_file_name("setup_wizard");
+    if !wizard.exists() {
+        ctx.notes.push("c13wizard: no setup_wizard binary next to the endpoint binary: nothing was run".to_string());
+        ctx.stat("wizard_binary_missing");
+        return;
+    }
+    let b64 = |s: &str| base64::engine::general_purpose::STANDARD.encode(s.as_bytes());
+    let creds: Vec<(&str, &str)> = vec![("alice", "secret"), ("Bob Smith", "p\"q\\r s "), ("\u{e9}ve", "\u{4e16}#=[]'"), ("u", "a:b:c")];
+    let mut k = 0usize;
+    for ip in ["127.0.0.1", "0.0.0.0", "[::1]", "[::]"] {
+        let v6 = ip.starts_with('[');
+        let n_creds = if ctx.thorough() { creds.len() } else { 2 };
+        for _ in 0..n_creds {
+            let (user, pass) = creds[k % creds.len()];
+            k += 1;
+            let port = free_port();
+            let addr = format!("{}:{}", ip, port);
+            let desc = format!("setup_wizard -m non-interactive -a '{}' -c '{}:{}' -n vpn.verif.test", addr, user, pass);
+            ctx.stat("wizard_runs");
+            begin_case(&desc);
+            let dir = scratch("wizard");
+            let out = Command::new(&wizard)
+                .current_dir(&dir)
+                .args(["-m", "non-interactive", "-a", &addr, "-c", &format!("{}:{}", user, pass), "-n", "vpn.verif.test"])
+                .args(["--lib-settings", "vpn.toml", "--hosts-settings", "hosts.toml", "--cert-type", "self-signed"])
+                .stdin(Stdio::null())
+                .output();
+            let ok = matches!(&out, Ok(o) if o.status.success()) && dir.join("vpn.toml").exists() && dir.join("hosts.toml").exists();
+            if !ok {
+                ctx.oracle_failure("wizard_failed", &format!("{}: the wizard did not produce its files ({:?})", desc, out.map(|o| String::from_utf8_lossy(&o.stderr).chars().take(300).collect::<String>())));
+                let _ = std::fs::remove_dir_all(&dir);
+                continue;
+            }
+            let written = std::fs::read_to_string(dir.join("vpn.toml")).unwrap_or_default();
+            let listen_line = written.lines().find(|l| l.starts_with("listen_address")).unwrap_or("").to_string();
+            let child = Command::new(&binp)
+                .current_dir(&dir)
+                .args(["-l", "info", "--logfile", "log.txt", "vpn.toml", "hosts.toml"])
+                .stdin(Stdio::null())
+                .stdout(Stdio::piped())
+                .stderr(Stdio::piped())
+                .spawn();
+            let Ok(child) = child else {
+                ctx.oracle_failure("harness", "could not start the endpoint binary");
+                return;
+            };
+            let mut p = Proc { child, dir: dir.clone(), port };
+            // the address to reach it at: the one asked for, or the loopback of its family for a wildcard
+            let reach: SocketAddr = match ip {
+                "0.0.0.0" => ([127, 0, 0, 1], port).into(),
+                "[::]" => (std::net::Ipv6Addr::LOCALHOST, port).into(),
+                _ => addr.parse().unwrap(),
+            };
+            let t0 = Instant::now();
+            let mut verdict = "hang";
+            loop {
+                if let Some(_code) = p.exited() {
+                    verdict = "err";
+                    break;
+                }
+                if TcpStream::connect_timeout(&reach, Duration::from_millis(100)).is_ok() {
+                    verdict = "ok";
+                    break;
+                }
+                if t0.elapsed() > Duration::from_secs(6) {
+                    break;
+                }
+                std::thread::sleep(Duration::from_millis(10));
+            }
+            // the wizard's settings as the start-up model sees them: every protocol enabled, one client, no reverse proxy
+            ctx.emit(
+                &format!("c13 validate {} {} {} 1 1 1 1 none", (ip == "0.0.0.0" || ip == "[::]") as u8, port, (ip == "127.0.0.1" || ip == "[::1]") as u8),
+                verdict,
+            );
+            if verdict != "ok" {
+                let mut err = String::new();
+                if let Some(mut e) = p.child.stderr.take() {
+                    let _ = e.read_to_string(&mut err);
+                }
+                ctx.oracle_failure(
+                    "wizard_files_not_read_back",
+                    &format!("{}: the endpoint started from the wizard's files did not come up on {} ({}); the wizard wrote `{}`; endpoint said: {}", desc, reach, verdict, listen_line, err.chars().take(300).collect::<String>()),
+                );
+                continue;
+            }
+            // the certificate for the host name is the generated one
+            let want = der_of(dir.join("certs/cert.pem").to_str().unwrap());
+            let got = {
+                let mut config = rustls::ClientConfig::builder().with_safe_defaults().with_custom_certificate_verifier(Arc::new(NoVerify)).with_no_client_auth();
+                config.alpn_protocols.push(b"http/1.1".to_vec());
+                let mut conn = rustls::ClientConnection::new(Arc::new(config), "vpn.verif.test".try_into().unwrap()).unwrap();
+                TcpStream::connect(reach).ok().and_then(|mut s| {
+                    let _ = s.set_read_timeout(Some(Duration::from_secs(2)));
+                    while conn.is_handshaking() {
+                        if conn.complete_io(&mut s).is_err() {
+                            return None;
+                        }
+                    }
+                    conn.peer_certificates().and_then(|c| c.first()).map(|c| c.0.clone())
+                })
+            };
+            if got.as_deref() != Some(&want[..]) {
+                ctx.oracle_failure("wizard_certificate", &format!("{}: the endpoint does not present the wizard's certificate for vpn.verif.test", desc));
+            }
+            // the credentials mean what was typed: health checks with several tokens
+            let tokens = vec![
+                b64(&format!("{}:{}", user, pass)),
+                b64(&format!("{}:{}x", user, pass)),
+                b64(&format!("{}:", user)),
+                b64(&format!("{}:{}", user.to_uppercase(), pass)),
+                b64(&format!("{}:{}", user, pass.trim_end())),
+                String::new(),
+            ];
+            for tok in tokens {
+                let mut config = rustls::ClientConfig::builder().with_safe_defaults().with_custom_certificate_verifier(Arc::new(NoVerify)).with_no_client_auth();
+                config.alpn_protocols.push(b"http/1.1".to_vec());
+                let mut conn = rustls::ClientConnection::new(Arc::new(config), "vpn.verif.test".try_into().unwrap()).unwrap();
+                let Ok(mut s) = TcpStream::connect(reach) else { continue };
+                let _ = s.set_read_timeout(Some(Duration::from_secs(2)));
+                let mut tls = rustls::Stream::new(&mut conn, &mut s);
+                let req = if tok.is_empty() {
+                    "CONNECT _check HTTP/1.1\r\nHost: _check\r\n\r\n".to_string()
+                } else {
+                    format!("CONNECT _check HTTP/1.1\r\nHost: _check\r\nProxy-Authorization: Basic {}\r\n\r\n", tok)
+                };
+                if tls.write_all(req.as_bytes()).is_err() {
+                    continue;
+                }
+                let mut got = vec![];
+                let mut buf = [0u8; 512];
+                let t1 = Instant::now();
+                while !got.windows(4).any(|w| w == b"\r\n\r\n") && t1.elapsed() < Duration::from_secs(2) {
+                    match tls.read(&mut buf) {
+                        Ok(0) | Err(_) => break,
+                        Ok(n) => got.extend_from_slice(&buf[..n]),
+                    }
+                }
+                let ans = if got.starts_with(b"HTTP/1.1 200") {
+                    "pass"
+                } else if got.starts_with(b"HTTP/1.1 407") {
+                    "reject"
+                } else {
+                    "no-answer"
+                };
+                ctx.emit(&format!("c13 auth 1 {} {} {}", hex(user.as_bytes()), hex(pass.as_bytes()), hex(tok.as_bytes())), ans);
+                ctx.stat(&format!("wizard_credentials_{}", ans));
+            }
+        }
+    }
+}
